@@ -70,15 +70,18 @@ def newchunk (o : Ob) (length : Nat) : Ob :=
 /-- `obstack_next_free (h)` -/
 def nextFree (o : Ob) : Ptr := { chunk := o.cur, off := o.obj.length }
 
-/-- `obstack_grow (h, where, length)` (obstack.h:  if (obstack_room (h) < len) _obstack_newchunk (h, len);
-    memcpy (h->next_free, where, len); h->next_free += len). -/
+/-- the test both macros start with:  if (obstack_room (h) < length) _obstack_newchunk (h, length); -/
+def ensure (o : Ob) (n : Nat) : Ob := if o.room < n then newchunk o n else o
+
+/-- `obstack_grow (h, where, length)` (obstack.h): the room test, then
+    memcpy (h->next_free, where, len); h->next_free += len. -/
 def grow (o : Ob) (s : List Char) : Ob :=
-  let o := if o.room < s.length then newchunk o s.length else o
+  let o := ensure o s.length
   { o with obj := o.obj ++ s.map some, room := o.room - s.length, ok := o.ok && decide (s.length ≤ o.room) }
 
 /-- `obstack_blank (h, length)`: the same test, then obstack_blank_fast: next_free += length, nothing stored. -/
 def blank (o : Ob) (n : Nat) : Ob :=
-  let o := if o.room < n then newchunk o n else o
+  let o := ensure o n
   { o with obj := o.obj ++ List.replicate n none, room := o.room - n, ok := o.ok && decide (n ≤ o.room) }
 
 /-- `memset (p, c, n)`: inside the growing object the bytes are stored; anywhere else (another chunk — after a
